@@ -163,6 +163,9 @@ def same_value(a, b, exact=None, rtol=1e-9):
             return None
         return "values differ (exact)" + _where(a, b)
     if a.dtype.kind in "fc":
+        # two legitimate evaluation orders of an inexact result differ by a few units in the last place OF
+        # ITS DTYPE: 1e-9 is right for float64, float32 needs its own epsilon (64 ulp)
+        rtol = max(rtol, 64 * float(np.finfo(a.dtype).eps))
         with np.errstate(all="ignore"):
             fin = np.isfinite(a) & np.isfinite(b)
             scale = float(np.max(np.abs(a[fin]))) if fin.any() else 1.0
